@@ -210,7 +210,11 @@ func (e *explorer) exploreConfig(worker int, cfg Config, depth, level, countFrom
 	}
 	var frontier []node
 	seen := map[string]bool{}
-	for _, ss := range startStates(cfg, level) {
+	starts := startStates(cfg, level)
+	if cfg.Align != 0 || cfg.Spare {
+		starts = starts[:2] // slab variants: contents pattern "inc" and the detached buffer
+	}
+	for _, ss := range starts {
 		if !seen[ss.st.key()] {
 			seen[ss.st.key()] = true
 			frontier = append(frontier, node{st: ss.st, level: ss.level})
@@ -299,13 +303,13 @@ func run(r *core.Run) {
 	if r.Quick() {
 		bounds = []bound{
 			{name: "depth 1, buffers 0..16 bytes, full alphabet", sizes: seq(0, 16), depth: 1, level: lvFull, aligns: []int{0}, spares: []bool{false}},
-			{name: "depth 1, buffers 0..16 bytes, slab variants (alignment 0..7 x clipped/spare capacity), views at the buffer ends, thinned alphabet", sizes: seq(0, 16), depth: 1, level: lvMin, aligns: allAligns, spares: []bool{true, false}, variantsOnly: true},
+			{name: "depth 1, buffers 0..9 and 16 bytes, slab variants (alignment 0..7 x clipped/spare capacity), views at the buffer ends, thinned alphabet, start states inc + detached", sizes: append(seq(0, 9), 16), depth: 1, level: lvMin, aligns: allAligns, spares: []bool{true, false}, variantsOnly: true},
 			{name: "depth 2, buffers 0..4 bytes", sizes: seq(0, 4), depth: 2, countFrom: 2, level: lvSmall, aligns: []int{0}, spares: []bool{false}},
 		}
 	} else {
 		bounds = []bound{
 			{name: "depth 1, buffers 0..24 bytes, full alphabet", sizes: seq(0, 24), depth: 1, level: lvFull, aligns: []int{0}, spares: []bool{false}},
-			{name: "depth 1, buffers 0..24 bytes, slab variants (alignment 0..7 x clipped/spare capacity), views at the buffer ends, thinned alphabet", sizes: seq(0, 24), depth: 1, level: lvMin, aligns: allAligns, spares: []bool{true, false}, variantsOnly: true},
+			{name: "depth 1, buffers 0..24 bytes, slab variants (alignment 0..7 x clipped/spare capacity), views at the buffer ends, thinned alphabet, start states inc + detached", sizes: seq(0, 24), depth: 1, level: lvMin, aligns: allAligns, spares: []bool{true, false}, variantsOnly: true},
 			{name: "depth 1, buffers 0..8 bytes, slab variants, every view, thinned alphabet", sizes: seq(0, 8), depth: 1, countFrom: 2, level: lvMin, aligns: allAligns, spares: []bool{true, false}},
 			{name: "depth 2, buffers 0..8 bytes", sizes: seq(0, 8), depth: 2, countFrom: 2, level: lvSmall, aligns: []int{0}, spares: []bool{false}},
 			{name: "depth 1, buffers of 31,32,33,48,63,64 bytes, full alphabet, 2 slab variants", sizes: []int{31, 32, 33, 48, 63, 64}, depth: 1, level: lvFull, aligns: []int{0, 3}, spares: []bool{false, true}},
